@@ -316,6 +316,26 @@ func selftest(verbose bool) error {
 		expect("hidden-optional/wrapOk", names["wrapOk"], false)
 		expect("hidden-optional/wrapBad", names["wrapBad"] && len(opt) == 1, true)
 	}
+	for _, tc := range []struct {
+		fn  string
+		bad bool
+	}{{"LookupOk", false}, {"LookupBad", true}} {
+		f := u.Func(fx, tc.fn)
+		if f == nil {
+			return fmt.Errorf("fixture %s missing", tc.fn)
+		}
+		expect("map-lookup-deref/"+tc.fn, len(mapLookupPointerDerefs(f)) > 0, tc.bad)
+	}
+	for _, tc := range []struct {
+		fn  string
+		bad bool
+	}{{"GoLoopOk", false}, {"GoLoopBad", true}} {
+		f := u.Func(fx, tc.fn)
+		if f == nil {
+			return fmt.Errorf("fixture %s missing", tc.fn)
+		}
+		expect("go-loop-shared/"+tc.fn, len(sharedMutatedCaptures(f)) > 0, tc.bad)
+	}
 	if len(fails) > 0 {
 		return fmt.Errorf("%s", strings.Join(fails, "; "))
 	}
